@@ -621,7 +621,7 @@ PROPERTIES = {
                      "spec_check": lambda io, spec, case: None, "nontrivial": lambda obs, case: obs[0].count("@") >= 2}],
         "assumptions": ["unicode.IsSpace/IsLetter/IsDigit/ToLower are regenerated tables of the Go toolchain in use; regexp is modelled for the two fixed patterns only"],
         "rule": "markup/chunks: chunk lists from the grammar of DESIGN C13 (text over ASCII, accented, CJK and astral characters with white space at every edge; escapes; open/close/close-all/self-closing markers with 0-3 properties of every value type, shorthand, nesting, overlap, repetition; nomarkup/select/plural/ordinal self-closing or closed by name) rendered to a line; compared: implementation = model exactly, and model = the parser-independent specification `expected` (line SPEC same); non-trivial = at least two attributes",
-        "leanchecker": ["Ysgo.Props.C13"],
+        "leanchecker": ["Ysgo.Props.C13", "Ysgo.Props.C13Facts"],
     },
     "C14": {
         "level": "proof",
